@@ -15,6 +15,8 @@
 package searcher
 
 import (
+	"bytes"
+
 	"github.com/blugelabs/bluge/search"
 )
 
@@ -24,6 +26,14 @@ func NewTermRangeSearcher(indexReader search.Reader,
 	options search.SearcherOptions) (search.Searcher, error) {
 	if min == nil {
 		min = []byte{}
+	}
+
+	if max != nil {
+		// an inverted interval, or a single point that is not included on
+		// both sides, is empty
+		if c := bytes.Compare(min, max); c > 0 || (c == 0 && !(inclusiveMin && inclusiveMax)) {
+			return NewMatchNoneSearcher(indexReader, options)
+		}
 	}
 
 	if max != nil && inclusiveMax {
